@@ -196,9 +196,9 @@ theorem distOKI_of_fluent {I : List (String × Geom × Nat)} {a : DistArgs} (h :
 
 /-! ### The composition clause with `distribute` -/
 
-/-- Operations whose liquid is traceable, now including `distribute` of a positive volume. -/
+/-- Operations whose liquid is traceable, now including `distribute` (any volume ≥ 0; a negative one is refused). -/
 def traceableI (I : List (String × Geom × Nat)) (dev : Device) : Op → Prop
-  | .distribute a => DistOKI I dev a ∧ 0 < a.vol.q
+  | .distribute a => DistOKI I dev a
   | op => Amt.traceable op = true
 
 theorem compile_ablockD {labs₀ : List Labware} (w : World) (hwf : WFI (info w)) (op : Op)
@@ -212,11 +212,11 @@ theorem compile_ablockD {labs₀ : List Labware} (w : World) (hwf : WFI (info w)
       cases hD : w.labs[a.dst]? with
       | none => exact Amt.ablock_fail _
       | some D =>
-        obtain ⟨⟨hne, hc0, hrest⟩, hpos⟩ := hop
+        obtain ⟨hne, hc0, hrest⟩ := hop
         obtain ⟨nS, hIS⟩ := info_getElem hS
         obtain ⟨nD, hID⟩ := info_getElem hD
         obtain ⟨hsrc, hnd⟩ := hrest _ _ _ _ _ _ hIS hID
-        exact ablock_compileDistribute hwf w.cfg rfl S D a ⟨nS, hIS⟩ ⟨nD, hID⟩ ⟨hne, hsrc, hc0, hnd⟩ hpos
+        exact ablock_compileDistribute hwf w.cfg rfl S D a ⟨nS, hIS⟩ ⟨nD, hID⟩ ⟨hne, hsrc, hc0, hnd⟩
   | transfer s sw d dw vols label wash pb kw => exact Amt.compile_ablock w hwf _ rfl
   | comment c => exact Amt.compile_ablock w hwf _ rfl
   | wash n => exact Amt.compile_ablock w hwf _ rfl
@@ -237,7 +237,7 @@ theorem compile_ablockD {labs₀ : List Labware} (w : World) (hwf : WFI (info w)
   | evoDispense _ _ _ _ => cases hop
 
 /-- **C01 (composition) with `distribute`.**  As `C01.replay_composition`, for programs of transfers, record-only
-    operations and `distribute` calls (positive volume, static side conditions `DistOKI`): the independent
+    operations and `distribute` calls (static side conditions `DistOKI`): the independent
     interpreter — takes from the source range and puts into the destination positions in ascending order, moving
     absolute amounts — ends with exactly `fraction × volume` of every component in every real well of every labware,
     although the tracking removed once and added in argument order. -/
@@ -273,10 +273,10 @@ theorem replay_composition_dist (w₀ : World) (hwf : WF w₀) (hgood : Amt.Good
         exact ih w' hwf' hG' hok (by rw [hcfg]; exact hdev) hinv hI'
           (fun o ho => hops o (List.mem_cons_of_mem _ ho))
 
-/-- On an EVO: transfers, record-only operations and `distribute` of a positive volume from a trough with at most
+/-- On an EVO: transfers, record-only operations and `distribute` from a trough with at most
     26 virtual rows into another labware — nothing is assumed about the destination wells. -/
 def traceableEvo (I : List (String × Geom × Nat)) : Op → Prop
-  | .distribute a => DistEvo I a ∧ 0 < a.vol.q
+  | .distribute a => DistEvo I a
   | op => Amt.traceable op = true
 
 theorem replay_composition_evo (w₀ : World) (hwf : WF w₀) (hgood : Amt.Good w₀) (h0 : w₀.recs = [])
@@ -287,7 +287,7 @@ theorem replay_composition_evo (w₀ : World) (hwf : WF w₀) (hgood : Amt.Good 
   have := replay_composition_dist w₀ hwf hgood h0 ops (fun op hop => by
     have h := hops op hop
     rw [hdev]
-    cases op <;> first | exact ⟨distOKI_of_evo h.1, h.2⟩ | exact h) hok
+    cases op <;> first | exact distOKI_of_evo h | exact h) hok
   rw [hdev] at this; exact this
 
 /-- Operations covered on an EVO / on a Fluent, with the device-specific side conditions spelled out. -/
@@ -355,6 +355,38 @@ example : trackedI (info C01.exW) C01.exW.cfg.dev (.distribute exDist) := by
 #eval ((RState.ofLabs C01.exW.labs).run .evo (C01.exW.run [.distribute exDist]).1.recs).map
     (fun st => st.labs.map (fun L => L.wells.map (·.vol)))
 #eval (C01.exW.run [.distribute exDist]).1.labs.map (·.vols)
+
+/-! Non-vacuity of the composition theorem: `exDist` meets `traceableEvo` on the good world `C01.exW`; the replayed
+    amounts of "water" after the `R;` record equal fraction × volume of the tracking (evaluated, see the remark above). -/
+example : traceableEvo (info C01.exW) (.distribute exDist) := by
+  refine ⟨by decide, by decide, ?_⟩
+  intro nS gS lS hS v hv
+  have hgS : gS = ⟨1, 2, some 4⟩ := by
+    simp [info, sinfo, C01.exW, C01.exTrough, exDist] at hS; exact hS.2.1.symm
+  subst hgS
+  cases hv; omega
+
+#eval ((RState.ofLabs C01.exW.labs).run .evo (C01.exW.run [.distribute exDist]).1.recs).map
+    (fun st => st.labs.map (fun L => L.wells.map (fun wl => amtOf wl.amts "water")))
+#eval (C01.exW.run [.distribute exDist]).1.labs.map
+    (fun L => (List.range L.vols.length).map fun i => L.frac i "water" * L.vol i)
+
+/-- On a **Fluent**: transfers, record-only operations and `distribute` from a one-row trough
+    into a labware the Fluent numbers injectively. -/
+def traceableFluent (I : List (String × Geom × Nat)) : Op → Prop
+  | .distribute a => DistFluent I a
+  | op => Amt.traceable op = true
+
+theorem replay_composition_fluent (w₀ : World) (hwf : WF w₀) (hgood : Amt.Good w₀) (h0 : w₀.recs = [])
+    (hdev : w₀.cfg.dev = .fluent) (ops : List Op) (hops : ∀ op ∈ ops, traceableFluent (info w₀) op)
+    (hok : (w₀.run ops).2 = none) :
+    (∃ st, (RState.ofLabs w₀.labs).run .fluent (w₀.run ops).1.recs = some st
+      ∧ Match st (w₀.run ops).1 ∧ Amt.AmtOK st (w₀.run ops).1) ∧ Amt.Good (w₀.run ops).1 := by
+  have := replay_composition_dist w₀ hwf hgood h0 ops (fun op hop => by
+    have h := hops op hop
+    rw [hdev]
+    cases op <;> first | exact distOKI_of_fluent h | exact h) hok
+  rw [hdev] at this; exact this
 
 end C01D
 end Robotools
